@@ -41,6 +41,7 @@ def c14(tier, rep):
     E.traces(rep, E.record_all(std_sources(tier, 300, 3000), modes=("collect", "stop"), iff=200 if tier == "quick" else 2000), "corpus+gen+noisy")
     E.reuse_pass(rep, E.src_limits() + E.src_corpus() + E.src_limits() + E.src_noisy(100, SEED), "reuse")
     _stream_rejection(rep, E.src_limits() + E.src_corpus() + E.src_noisy(60 if tier == "quick" else 600, SEED + 5))
+    E.usage_variants_pass(rep, E.src_corpus() + E.src_limits() + E.src_generated(60, SEED + 4))
 
 
 def _stream_rejection(rep, sources):
@@ -106,6 +107,7 @@ def c01(tier, rep):
     E.menu(rep, M.BASE, 3 if q else 4, invariants=["Inv_C01"], label="base")
     E.menu(rep, M.BASE, 3, mode="stop", max_errs=1, invariants=["Inv_C01"], label="base-stop")
     E.menu(rep, CAP_MENU, 12, max_errs=11, invariants=["Inv_C01"], label="error-limit")
+    E.usage_variants_pass(rep, E.src_corpus() + E.src_limits() + E.src_generated(60, SEED + 4) + fuzz_sources(100, SEED))
     import l0 as L
     res = L.termination(3 if q else 4)
     rep.add_tlc(f"MC_L0[liveness,N={3 if q else 4}]", res, "PROPERTY Termination (<> done) under weak fairness, all 14 kinds, no state constraint")
@@ -125,6 +127,22 @@ def c01(tier, rep):
             src = r["sources"][m["src"] - 1] if m else r["sources"][0]
             rep.violation({"kind": "stream-totality"}, {"engine": "Trace_Stream", "what": "stream output differs from the specification / foreign exception",
                                                         "source": "".join(map(chr, src["data"])), "notes": r["notes"], "detail": m})
+    # the scanner: every small argument against a small file system, the reading machine run to the end (MC_Scanner); the real TokenScanner must do exactly
+    # what the AS-IMPLEMENTED stream says -- inside the recorded finding class (an argument naming an existing path) that is the recorded deviation and no more
+    import scanner as SC
+    cases, bad, res = SC.model_check_and_replay(4 if q else 6)
+    rep.add_tlc("MC_Scanner", res, f"{len(cases)} arguments / file contents: Inv_Machine, Inv_Partition, Inv_NumbersCountOn, Inv_FileIsCrLfString, Inv_DeviationConfined, "
+                "Inv_DocumentedOutside; each replayed on the real TokenScanner in a scratch directory")
+    rep.traces += len(cases)
+    for inv in sorted(set(res.invariant_violations)):
+        rep.violation({"kind": "spec-invariant", "invariant": inv}, {"engine": "MC_Scanner", "what": f"{inv} violated", "tlc_tail": res.out[-3000:]})
+    for c in cases:
+        rep.case(("scanner", c["kind"], tuple(c["arg"]), tuple(c["content"])))
+    for b in bad[:20]:
+        rep.violation({"kind": "scanner"}, {"engine": "MC_Scanner", "what": "the real TokenScanner reads something else than the specification's (as implemented) stream", **b})
+    dev = [c for c in cases if c["known"] and c["kind"] == "arg" and (not c["impl_ok"] or [t[1] for t in c["impl"] if not t[0]] != (["".join(map(chr, c["arg"]))] if c["arg"] else []))]
+    if dev:
+        rep.violation({"kind": "source-names-existing-path"}, {"engine": "MC_Scanner", "what": "an argument that names an existing path is not read as source text", "n": len(dev)})
     # known finding: a source string that names an existing path is opened as a file
     from gherkin.parser import Parser
     from gherkin.errors import ParserError
